@@ -56,7 +56,7 @@ ENC = [
     H("enc::int_", functions=ENC_FUNCS, bounds="all i32 under schema int"),
     H("enc::logical_kinds", functions=ENC_FUNCS, bounds="9 int/long-backed logical kinds x values in [-8192, 8191]"),
     H("enc::spec_varint_roundtrip", functions=["(reference lemma: harness spec::enc_long / spec::dec_long only)"], bounds="all i64"),
-    H("enc::datum_writer_validate_flag", functions=["writer::datum::GenericDatumWriter::write_value_ref", "types::Value::validate_internal", "encode::encode_internal"], bounds="all i64 / booleans / all f64, validate on vs off"),
+    H("enc::datum_writer_validate_flag", functions=["writer::datum::GenericDatumWriter::write_value_ref", "types::Value::validate_internal", "encode::encode_internal"], bounds="all i64 under schema long, validate on vs off"),
     H("enc::scalars", functions=ENC_FUNCS, bounds="null, both booleans, all f32 and f64 bit patterns"),
     H("enc::bytes_string_fixed", functions=ENC_FUNCS, bounds="all payloads of 0..=4 bytes (strings: all well-formed UTF-8)"),
     H("enc::enum_", functions=ENC_FUNCS, bounds="3 symbols, Enum(i,s) and String(s) forms"),
@@ -135,13 +135,11 @@ C18_FUNCS = ["headers::RabinFingerprintHeader::build_header", "reader::single_ob
 PROPS["C18"] = {
     "harnesses": [
         H("c18::header_layout", functions=C18_FUNCS[:1], bounds="all 8-byte fingerprints"),
-        H("c18::reader_rejects_foreign_header", functions=C18_FUNCS[1:3], bounds="schema long, reader configured with a 3-byte expected header; all 5-byte inputs x all lengths 0..=5 (every truncation and alteration of the header bytes)", timeout_q=900),
-        H("c18::read_header_exact", functions=C18_FUNCS[2:3], bounds="the real 10-byte header; all 11-byte inputs x all lengths 0..=11"),
-        H("c18::writer_buffer_reuse", functions=C18_FUNCS[3:], bounds="schema long; 2 calls on one writer, all (i64, i64), first sink failing or not", timeout_q=900),
-        H("c18::writer_after_encode_error", functions=C18_FUNCS[3:], bounds="schema record{a:long,b:[null,long]}; first value lacks b (validates, fails while encoding), second complete; all i8 payloads", timeout_q=900),
+        H("c18::read_header_exact", functions=C18_FUNCS[2:3], bounds="the real 10-byte header; all 11-byte inputs x all lengths 0..=11 (every truncation, every alteration of every header bit)"),
         H("c12::rabin_two_bytes", functions=["rabin::Rabin::update"], bounds="all 1- and 2-byte inputs vs bitwise CRC-64-AVRO"),
+        H("c12::rabin_table", functions=["rabin::fp_table"], bounds="all 256 table indexes"),
     ],
-    "outside": "the canonical form text the fingerprint is computed from (text processing); typed (derive-based) writers/readers; sequences longer than 2 calls",
+    "outside": "everything that goes through the writer's / reader's ResolvedOwnedSchema (an ouroboros self-referential struct whose schema and name table symex cannot constant-fold: validation then walks Ref recursion, schema clones and serde_json maps and does not finish): GenericSingleObjectWriter::write_value_ref buffer reuse across calls, read_value = header check + datum decode, typed writers/readers. Harnesses for these exist (c18::writer_buffer_reuse, c18::writer_after_encode_error, c18::reader_rejects_foreign_header) but are NOT registered: they are not decided within the caps. The canonical form text the fingerprint is computed from.",
     "assumptions": ["the 10 expected header bytes are a fixed concrete header; the fingerprint arithmetic is covered by the Rabin harnesses"],
 }
 
@@ -183,7 +181,7 @@ _C14 = {h.name: h for h in PROPS["C14"]["harnesses"]}
 _C18 = {h.name: h for h in PROPS["C18"]["harnesses"]}
 PROPS["C05"] = {
     "harnesses": _pick(DEC, _ALL_DEC, quick={"dec::null_bool", "dec::long_full", "dec::string_3", "dec::fixed_", "dec::fixed_size_guard", "dec::logical_kinds"})
-                 + [_C19["c19::limit_first_set_wins"], _C19["c19::limit_applied_by_decode_len"], _C14["c14::cuts_two_byte_count"], _C14["c14::cuts_a"], _C18["c18::reader_rejects_foreign_header"]],
+                 + [_C19["c19::limit_first_set_wins"], _C19["c19::limit_applied_by_decode_len"], _C14["c14::cuts_two_byte_count"], _C14["c14::cuts_a"], _C18["c18::read_header_exact"]],
     "outside": ENCDEC_OUTSIDE + ". Container header / embedded schema JSON, decompression, the serde deserializer, fixed sizes above 4 (the unguarded `vec![0; size]` for huge fixed sizes is therefore not exercised), block counts of zero-width items beyond one block.",
     "assumptions": ["no-panic = every Rust panic site (bounds, overflow in debug, unwrap/expect, unreachable) and every pointer check CBMC instruments is a proof obligation of the harness",
                     "termination = unwinding assertions: every loop finishes within the stated unwind bound"],
@@ -192,14 +190,14 @@ PROPS["C05"] = {
 PROPS["C11"] = {
     "zregex": True,
     "harnesses": [
-        H("c11::union_rules_null", tier="quick", timeout_q=900, functions=["schema::union::UnionSchema::new", "schema::union::UnionSchemaBuilder::variant", "schema::union::UnionSchemaBuilder::build", "schema::union::schema_to_base_schemakind"], bounds="first branch null x 9 second branches (null, boolean, int, long, string, date, fixed A, fixed B, union)"),
-        H("c11::union_rules_int", tier="thorough", timeout_q=900, functions=["schema::union::UnionSchema::new", "schema::union::UnionSchemaBuilder::variant", "schema::union::UnionSchemaBuilder::build", "schema::union::schema_to_base_schemakind"], bounds="first branch int x 9 second branches (null, boolean, int, long, string, date, fixed A, fixed B, union)"),
-        H("c11::union_rules_long", tier="thorough", timeout_q=900, functions=["schema::union::UnionSchema::new", "schema::union::UnionSchemaBuilder::variant", "schema::union::UnionSchemaBuilder::build", "schema::union::schema_to_base_schemakind"], bounds="first branch long x 9 second branches (null, boolean, int, long, string, date, fixed A, fixed B, union)"),
-        H("c11::union_rules_string", tier="thorough", timeout_q=900, functions=["schema::union::UnionSchema::new", "schema::union::UnionSchemaBuilder::variant", "schema::union::UnionSchemaBuilder::build", "schema::union::schema_to_base_schemakind"], bounds="first branch string x 9 second branches (null, boolean, int, long, string, date, fixed A, fixed B, union)"),
-        H("c11::union_rules_date", tier="quick", timeout_q=900, functions=["schema::union::UnionSchema::new", "schema::union::UnionSchemaBuilder::variant", "schema::union::UnionSchemaBuilder::build", "schema::union::schema_to_base_schemakind"], bounds="first branch date x 9 second branches (null, boolean, int, long, string, date, fixed A, fixed B, union)"),
-        H("c11::union_rules_fixed_a", tier="quick", timeout_q=900, functions=["schema::union::UnionSchema::new", "schema::union::UnionSchemaBuilder::variant", "schema::union::UnionSchemaBuilder::build", "schema::union::schema_to_base_schemakind"], bounds="first branch fixed_a x 9 second branches (null, boolean, int, long, string, date, fixed A, fixed B, union)"),
-        H("c11::union_rules_fixed_b", tier="thorough", timeout_q=900, functions=["schema::union::UnionSchema::new", "schema::union::UnionSchemaBuilder::variant", "schema::union::UnionSchemaBuilder::build", "schema::union::schema_to_base_schemakind"], bounds="first branch fixed_b x 9 second branches (null, boolean, int, long, string, date, fixed A, fixed B, union)"),
-        H("c11::union_rules_union", tier="quick", timeout_q=900, functions=["schema::union::UnionSchema::new", "schema::union::UnionSchemaBuilder::variant", "schema::union::UnionSchemaBuilder::build", "schema::union::schema_to_base_schemakind"], bounds="first branch union x 9 second branches (null, boolean, int, long, string, date, fixed A, fixed B, union)"),
+        H("c11::union_rules_null", tier="quick", functions=["schema::union::UnionSchemaBuilder::variant (the rule-checking step of UnionSchema::new)", "schema::union::schema_to_base_schemakind"], bounds="first branch null x 9 second branches (null, boolean, int, long, string, date, fixed A, fixed B, union)"),
+        H("c11::union_rules_int", tier="thorough", functions=["schema::union::UnionSchemaBuilder::variant (the rule-checking step of UnionSchema::new)", "schema::union::schema_to_base_schemakind"], bounds="first branch int x 9 second branches (null, boolean, int, long, string, date, fixed A, fixed B, union)"),
+        H("c11::union_rules_long", tier="thorough", functions=["schema::union::UnionSchemaBuilder::variant (the rule-checking step of UnionSchema::new)", "schema::union::schema_to_base_schemakind"], bounds="first branch long x 9 second branches (null, boolean, int, long, string, date, fixed A, fixed B, union)"),
+        H("c11::union_rules_string", tier="thorough", functions=["schema::union::UnionSchemaBuilder::variant (the rule-checking step of UnionSchema::new)", "schema::union::schema_to_base_schemakind"], bounds="first branch string x 9 second branches (null, boolean, int, long, string, date, fixed A, fixed B, union)"),
+        H("c11::union_rules_date", tier="quick", functions=["schema::union::UnionSchemaBuilder::variant (the rule-checking step of UnionSchema::new)", "schema::union::schema_to_base_schemakind"], bounds="first branch date x 9 second branches (null, boolean, int, long, string, date, fixed A, fixed B, union)"),
+        H("c11::union_rules_fixed_a", tier="quick", functions=["schema::union::UnionSchemaBuilder::variant (the rule-checking step of UnionSchema::new)", "schema::union::schema_to_base_schemakind"], bounds="first branch fixed_a x 9 second branches (null, boolean, int, long, string, date, fixed A, fixed B, union)"),
+        H("c11::union_rules_fixed_b", tier="thorough", functions=["schema::union::UnionSchemaBuilder::variant (the rule-checking step of UnionSchema::new)", "schema::union::schema_to_base_schemakind"], bounds="first branch fixed_b x 9 second branches (null, boolean, int, long, string, date, fixed A, fixed B, union)"),
+        H("c11::union_rules_union", tier="quick", functions=["schema::union::UnionSchemaBuilder::variant (the rule-checking step of UnionSchema::new)", "schema::union::schema_to_base_schemakind"], bounds="first branch union x 9 second branches (null, boolean, int, long, string, date, fixed A, fixed B, union)"),
     ],
     "outside": "totality and exactness of Schema::parse_str on arbitrary text (JSON kinds at every position, duplicate keys, defaults, references): the parser runs serde_json, regex-lite and name tables keyed by symbolic strings and is not symbolically executable. Claimed are only: the four name grammars (z3, unbounded strings) and the union construction rules.",
     "assumptions": ["regex-lite implements the documented semantics of the translated regex subset"],
